@@ -400,7 +400,7 @@ class C15(runner.Check):
         out += [(tier, "streams", k) for k in range(len(STREAMS_OF))]
         out += [(tier, "faults", k) for k in range(len(FAULT_DOCS))]
         out += [(tier, "streamfaults", k) for k in range(len(STREAMS_OF))]
-        out += [(tier, "l3", k) for k in range(4)]
+        out += [(tier, "l3", k) for k in range(5)]
         return out
 
     # ---------------------------------------------------------------------------------------------------------- dispatch
@@ -782,8 +782,10 @@ class C15(runner.Check):
                 self._l3_out(st, ak, tmpdir)
             elif k == 2:
                 self._l3_complex(st, ak)
-            else:
+            elif k == 3:
                 self._l3_partitioned(st, ak)
+            else:
+                self._l3_nonfinite(st, ak, tmpdir)
         finally:
             import shutil
             shutil.rmtree(tmpdir, ignore_errors=True)
@@ -913,6 +915,58 @@ class C15(runner.Check):
                 except ERRS:
                     st.outcome("l3:complex-refused-as-documented")
 
+    def _l3_nonfinite(self, st, ak, tmpdir):
+        """every subset of the three strings x text / bytes / file sources: ak.from_json(ak.to_json(a, **s), **s) == a, and the
+        strings that are NOT chosen stay strings"""
+        datas = [[1.5, math.nan, math.inf, -math.inf], [[1.0, -math.inf], [], [math.inf, math.nan]], [-math.inf], [math.inf],
+                 [math.nan], [{"x": -math.inf, "y": [math.inf]}]]
+        names = ("nan_string", "infinity_string", "minus_infinity_string")
+        words = ("NaN", "Infinity", "-Infinity")
+        for di, data in enumerate(datas):
+            arr = ak.from_iter(data)
+            for subset in itertools.product((False, True), repeat=3):
+                kw = {n: w for n, w, on in zip(names, words, subset) if on}
+                # the document always spells all three as strings; only the chosen ones may turn into numbers
+                text = json.dumps(json_value(data, None, words))
+                want = _l3_nf_expected(json.loads(text), {w: v for (n, w, on), v in zip(zip(names, words, subset), (math.nan, math.inf, -math.inf)) if on})
+                path = os.path.join(tmpdir, "nf%d_%s.json" % (di, "".join("1" if x else "0" for x in subset)))
+                with open(path, "w") as f:
+                    f.write(text)
+                for how, src in (("text", text), ("bytes", text.encode()), ("file", path)):
+                    case = {"mode": "l3-nonfinite", "data": di, "subset": list(subset), "source": how}
+                    self._mark()
+                    st.states += 1
+                    st.transitions += 1
+                    st.evaluations += 1
+                    try:
+                        got = ak.to_list(ak.from_json(src, **kw))
+                    except ERRS + (OSError,) as err:
+                        self._v(st, "l3-raised", "ak.from_json(%s %r, %r): %s: %s" % (how, text[:80], kw, type(err).__name__, str(err)[:160]),
+                                case, tag="l3-nonfinite", source=how)
+                        continue
+                    if layoutsem.same(got, want):
+                        st.outcome("l3:nonfinite-%s-ok" % how)
+                        st.nontrivial += 1
+                    else:
+                        self._v(st, "l3-nonfinite", "ak.from_json(%s %r, %r) = %r, expected %r" % (how, text[:80], kw, got, want), case,
+                                tag="l3-nonfinite", source=how)
+                # and the writer
+                self._mark()
+                st.transitions += 1
+                st.evaluations += 1
+                if all(subset):
+                    try:
+                        s2 = ak.to_json(arr, **kw)
+                        ok = layoutsem.same(strict_loads(s2), json.loads(text))
+                    except ERRS as err:
+                        ok = False
+                        s2 = "%s: %s" % (type(err).__name__, err)
+                    if ok:
+                        st.outcome("l3:nonfinite-to_json-ok")
+                    else:
+                        self._v(st, "l3-nonfinite", "ak.to_json(%r, %r) = %r" % (data, kw, s2[:120]), {"mode": "l3-nonfinite", "data": di,
+                                "subset": list(subset), "source": "to_json"}, tag="l3-nonfinite", source="to_json")
+
     def _l3_partitioned(self, st, ak):
         for di, doc in enumerate(DOCS):
             if not isinstance(doc, list) or len(doc) < 2:
@@ -963,12 +1017,23 @@ class C15(runner.Check):
             try:
                 {"l3-docs": lambda: self._l3_docs(st, ak, tmpdir), "l3-out": lambda: self._l3_out(st, ak, tmpdir),
                  "l3-leaf": lambda: self._l3_out(st, ak, tmpdir), "l3-complex": lambda: self._l3_complex(st, ak),
-                 "l3-partitioned": lambda: self._l3_partitioned(st, ak)}[mode]()
+                 "l3-partitioned": lambda: self._l3_partitioned(st, ak),
+                 "l3-nonfinite": lambda: self._l3_nonfinite(st, ak, tmpdir)}[mode]()
             finally:
                 shutil.rmtree(tmpdir, ignore_errors=True)
             vs = [v for v in st.violations if all(v["case"].get(kk) == case.get(kk) for kk in case)]
             return bool(vs), "\n".join(v["summary"] for v in vs) or "holds"
         return bool(st.violations), "\n".join(v["summary"] for v in st.violations) or "holds"
+
+
+def _l3_nf_expected(v, chosen):
+    if isinstance(v, str) and v in chosen:
+        return chosen[v]
+    if isinstance(v, list):
+        return [_l3_nf_expected(x, chosen) for x in v]
+    if isinstance(v, dict):
+        return {k: _l3_nf_expected(x, chosen) for k, x in v.items()}
+    return v
 
 
 def _mentions(doc, sset):
